@@ -63,6 +63,7 @@ struct USock
 	bool drain = false;     // reader that always keeps a receive pending
 	int64_t sndbuf = -1;    // configured send buffer, -1 default
 	bool df = false;        // don't-fragment option as last stated
+	bool cancel_pending = false; // cancel() was called with a receive outstanding
 	std::unique_ptr<asio::high_resolution_timer> shadow; // application timer coinciding with the first hop's forward timer
 	int64_t last_send_t = -1;
 	// pending receive
@@ -166,6 +167,7 @@ struct Udp
 		else if (o.op == "sndbuf") do_sndbuf(a, o.c);
 		else if (o.op == "df") do_df(a, int(uint64_t(o.b) % 4));
 		else if (o.op == "move") do_move(a);
+		else if (o.op == "cancel") do_cancel(a);
 	}
 
 	// the don't-fragment option: a datagram over the path MTU (1475 everywhere in this engine) is then discarded by the
@@ -242,6 +244,19 @@ struct Udp
 		ctx.hit("socket_moved");
 	}
 
+	// cancel(): an outstanding receive completes with operation_aborted; what is bound, queued unread or on its way stays
+	error_code send_ec;
+	void do_cancel(int a)
+	{
+		USock& s = socks[a];
+		if (!s.s->is_open()) return;
+		s.cancel_pending = s.recv_pending;
+		error_code ec;
+		s.s->cancel(ec);
+		ctx.tr.rec("cancel", {a}, {now_ns()});
+		ctx.hit("cancel");
+	}
+
 	void do_sndbuf(int a, int64_t code)
 	{
 		USock& s = socks[a];
@@ -293,7 +308,9 @@ struct Udp
 			// egress probe of the sender's address: how many packets it had seen
 			size_t const egress_before = egress_count(s);
 			auto const own = registry.find(std::make_pair(addr_key(dst.address()), int(dst.port())));
-			error_code ec;
+			// one error_code object for all sends, never cleared by the caller: a send that succeeds says so
+			error_code& ec = send_ec;
+			if (ec) ctx.hit("send_with_stale_error_code");
 			std::size_t const n = s.s->send_to(bufs, dst, 0, ec);
 			size_t const egress_after = egress_count(s);
 			ctx.tr.rec("send", {a, to, ec.value()}, {now_ns(), size, int64_t(n)});
@@ -426,7 +443,15 @@ struct Udp
 		++ctx.handlers;
 		ctx.tr.rec("recv", {a, ec.value(), have_from ? 1 : 0}, {now_ns(), int64_t(n)});
 		if (ep == s.epoch) s.recv_pending = false;
-		if (ec) return;
+		if (ec)
+		{
+			bool const ours = s.cancel_pending && ec == boost::asio::error::operation_aborted && ep == s.epoch;
+			if (ep == s.epoch) s.cancel_pending = false;
+			// a reader that keeps its queue drained starts over after its own cancel()
+			if (ours && s.drain && s.bound) arm_recv(a, 1, 0, 1);
+			return;
+		}
+		if (ep == s.epoch) s.cancel_pending = false;
 		account_delivery(a, n, have_from, ep);
 		if (s.drain && s.bound && ep == s.epoch) arm_recv(a, s.style == 1 ? 2 : 1, s.nrb, 1 + int(n % 2));
 	}
@@ -745,8 +770,9 @@ struct UdpEngine : Engine
 			else if (u < 0.83) { o.op = "close"; if (mode != 3 && rng.chance(0.5)) continue; }
 			else if (u < 0.93) { o.op = "bind"; o.b = int64_t(rng.below(5)); }
 			else if (u < 0.97) { o.op = "sndbuf"; o.c = int64_t(rng.below(50)); }
-			else if (u < 0.985) { o.op = "df"; o.b = int64_t(rng.below(4)); }
-			else o.op = "move";
+			else if (u < 0.98) { o.op = "df"; o.b = int64_t(rng.below(4)); }
+			else if (u < 0.99) o.op = "move";
+			else o.op = "cancel";
 			p.ops.push_back(o);
 		}
 		return p;
